@@ -372,7 +372,8 @@ def bytes_cases(draw):
         # the tuple ranges over every sighash byte, not only the six standard ones (0x00 is falsy in Python)
         "flag": draw(st.sampled_from(FLAGS + [0x00, 0x00, 0x04, 0x80, 0xFF]) | st.integers(0, 255)),
         "preimage": draw(st.booleans()),
-        "msg": draw(st.binary(max_size=80)).hex(),
+        # incl. lengths at which the message as passed (body, + 4 flag bytes in preimage mode) is 32 or 64 bytes long
+        "msg": draw(st.one_of(st.binary(max_size=80), st.sampled_from([0, 28, 32, 60, 64]).flatmap(lambda n: st.binary(min_size=n, max_size=n)))).hex(),
         "comp": draw(st.booleans()),
         "mut": m,
         "prime": draw(st.booleans()) or kind == "pk-prefix",
